@@ -20,9 +20,11 @@ class ConfigManager(object):
         TYPE_JSON: "json"
     }
 
+    # lookup order in a profile directory: config.json is what save() writes there, so it must not be
+    # shadowed by an older config.yo lying next to it
     MAP_EXT = {
-        "yo": TYPE_KEYVAL,
         "json": TYPE_JSON,
+        "yo": TYPE_KEYVAL,
     }
 
     TYPES = {
